@@ -21,6 +21,9 @@ UNITS = [
     unit('set_drop', 'pr_set_drop', r'^cocls::promise<int>::set_value\(cocls::DropTag\)$'),
     unit('set_exc', 'pr_set_exc', r'^cocls::promise<int>::set_exception\(std::__exception_ptr::exception_ptr\)$'),
     unit('dtor', 'pr_dtor', r'^cocls::promise<int>::~promise\(\)$'),
+    plain('move_assign', 'pr_move_assign', r'^cocls::promise<int>::operator=\(cocls::promise<int>&&\)$', harness='h_move_assign', lib=['rt_core.c', 'rt_atomic_seq.c'],
+          names_opt={'ma_set_drop_stub': r'^cocls::promise<int>::set_value\(cocls::DropTag\)$', 'ma_claim_stub': r'^cocls::promise<int>::claim\(\) const$', 'ma_sp_dtor_stub': r'^cocls::suspend_point<bool>::~suspend_point\(\)$'},
+          boundary=[r'^cocls::promise<int>::set_value\(cocls::DropTag\)$', r'^cocls::promise<int>::claim\(\) const$', r'^cocls::suspend_point<bool>::~suspend_point\(\)$']),
     plain('move_ctor', 'pr_move_ctor', r'^cocls::promise<int>::promise\(cocls::promise<int>&&\)$'),
     plain('bool', 'pr_bool', r'^cocls::promise<int>::operator bool\(\) const$'),
     plain('fu_ctor', 'fu_ctor', r'^cocls::future<int>::future\(\)$'),
